@@ -368,7 +368,8 @@ Proof.
   cbn [tails_re tails]. rewrite expr2_match. destruct (trailer is_w is_sp s) as [[r|r|c r]|] eqn:Et; cbn [option_map erase Nat.eqb].
   - reflexivity.
   - apply IH.
-  - destruct (trailer_open_char s c r Et) as (pre & Hs & _). rewrite Hs at 1. rewrite open_char_spec.
+  - destruct (trailer_open_char s c r Et) as (pre & Hs & _).
+    assert (Ho : open_char s r = c) by (rewrite Hs; apply open_char_spec). cbv zeta. rewrite Ho.
     rewrite br_loop_scan. destruct (scan_br (length r) c (closer c) 0 r); [apply IH | reflexivity].
   - reflexivity.
 Qed.
